@@ -47,3 +47,31 @@ extern int g_cov_iters;
     __CPROVER_assume(0); \
   }
 #endif
+
+/* ------------------------------------------------------------------------------------------------
+   SimTK_splder_ (bounded index / loop skeleton): arithmetic right-hand sides are pure stubs returning an arbitrary value.
+   Ghost bookkeeping (assigned by the hooks only):
+     g_sweeps  : number of times the body of the derivative-sweep loop `for (i = 1; i <= *ider; ++i)` is entered
+     (g_i,g_j) : an ARBITRARY (sweep, knot index) pair chosen by the harness; g_hits counts how often entry j == g_j is differenced
+                 in sweep i == g_i; g_hi_knot is the index of the upper knot used then; g_low_first records that entry g_j - 1 had
+                 already been overwritten in the same sweep (the recurrence needs the previous sweep's value of q[jm - 1]). */
+SimTK_Real vf_divdiff(SimTK_Real qj, SimTK_Real qjm1, SimTK_Real xhi, SimTK_Real xlo) { return nondet_double(); }
+SimTK_Real vf_deboor_r(SimTK_Real a, SimTK_Real tt, SimTK_Real xj, SimTK_Real b) { return nondet_double(); }
+SimTK_Real vf_deboor(SimTK_Real z, SimTK_Real xjki, SimTK_Real tt, SimTK_Real qm1, SimTK_Real xj) { return nondet_double(); }
+SimTK_Real vf_deboor_l(SimTK_Real a, SimTK_Real xj, SimTK_Real tt, SimTK_Real b) { return nondet_double(); }
+SimTK_Real vf_mul_int(SimTK_Real z, int j) { return nondet_double(); }
+#if defined(SPL_BOUNDED)
+#undef SEARCH_FN_BEGIN
+#undef SEARCH_BISECT_HEAD
+#define SEARCH_FN_BEGIN
+#define SEARCH_BISECT_HEAD            /* the body of search_ is unused in this mode: SimTK_splder_ calls the contract stub */
+int g_i, g_j, g_sweeps, g_hits, g_hi_knot, g_low_seen, g_low_first, g_den_bad;
+#define SPLDER_SWEEP_HOOK g_sweeps++;
+#define SPLDER_DIFF_HOOK \
+  if (!(x[j + mi] > x[j])) g_den_bad = 1; \
+  if (i == g_i && j == g_j - 1) g_low_seen = 1; \
+  if (i == g_i && j == g_j) { g_hits++; g_hi_knot = j + mi; if (g_low_seen) g_low_first = 1; }
+#else
+#define SPLDER_SWEEP_HOOK
+#define SPLDER_DIFF_HOOK
+#endif
